@@ -11,6 +11,64 @@ CLS = "DrapeModel"
 KNOWN_SINGLE_PRISM = "drape-merge-single-prism-refused"
 
 
+# ----------------------------------------------------------------------------- lists with repeated objects (all classes)
+def order_of(case):
+    """indices into case["inputs"] of the objects handed to the merger, in order (default: each once)"""
+    return case.get("order") or list(range(len(case["inputs"])))
+
+
+def expand(case):
+    """the merged list as specs, one per occurrence"""
+    return [case["inputs"][j] for j in order_of(case)]
+
+
+def maybe_repeat(rng, case, max_len, percent=18):
+    """with the given chance: merge a list in which at least one of the built objects occurs more than once"""
+    if not rng.chance(percent):
+        return
+    k = len(case["inputs"])
+    order = [rng.below(k) for _ in range(rng.range(2, max_len))]
+    if len(set(order)) == len(order):
+        order[-1] = order[0] if len(order) > 1 else order[-1]
+    if len(order) >= 2 and len(set(order)) < len(order):
+        case["order"] = order
+
+
+def survival_fails(ins, children, off, size, total):
+    """inputs with several data sets under one label: each (not entirely no-data) input data set is found unaltered at its
+    input's positions in some output child of that name/association; every output child has one entry per vertex/cell and
+    holds, over each input's range, either no-data or one of that input's data sets of that name"""
+    fails = []
+    for k, s in enumerate(ins):
+        for d in s["data"]:
+            if all(x is None for x in d["vals"]):
+                continue
+            o, n = off(k, d["cell"]), size(k, d["cell"])
+            if not any(c["name"] == f"d{d['name']}" and c["cell"] == d["cell"] and c["vals"] is not None and c["vals"][o:o + n] == d["vals"]
+                       for c in children):
+                fails.append({"key": "data-set-lost", "what": f"data d{d['name']} {d['vals']} of input {k} is at positions {o}..{o + n} of no merged data set "
+                                                               f"{[(c['name'], c['vals']) for c in children]}"})
+                return fails
+    for c in children:
+        if c["vals"] is None or len(c["vals"]) != total(c["cell"]):
+            fails.append({"key": "data-length", "what": f"merged data {c['name']} has {None if c['vals'] is None else len(c['vals'])} entries"})
+            return fails
+        covered = [False] * len(c["vals"])
+        for k, s in enumerate(ins):
+            o, n = off(k, c["cell"]), size(k, c["cell"])
+            got = c["vals"][o:o + n]
+            for q in range(o, o + n):
+                covered[q] = True
+            mine = [d["vals"] for d in s["data"] if f"d{d['name']}" == c["name"] and d["cell"] == c["cell"]]
+            if any(x is not None for x in got) and got not in mine:
+                fails.append({"key": "data-stray-values", "what": f"merged data {c['name']} holds {got} over input {k}, which is none of {mine}"})
+                return fails
+        if any(x is not None for q, x in enumerate(c["vals"]) if not covered[q]):
+            fails.append({"key": "data-stray-values", "what": f"merged data {c['name']} holds values outside every input's range: {c['vals']}"})
+            return fails
+    return fails
+
+
 # ----------------------------------------------------------------------------- generation
 def gen_input(rng, names, single=False):
     npr = 1 if single else rng.range(2, 4)
@@ -36,6 +94,9 @@ def gen_input(rng, names, single=False):
         if rng.chance(55):
             data.append({"name": nm, "cell": True,
                          "vals": [None if rng.chance(15) else rng.range(-50, 50) for _ in layers]})
+    if rng.chance(8) and data:  # two data sets under one name in one input: the renaming branch of BaseMerger.merge_data
+        data.append({"name": data[0]["name"], "cell": True,
+                     "vals": [None if rng.chance(15) else rng.range(-50, 50) for _ in layers]})
     return {"prisms": prisms, "layers": layers, "data": data}
 
 
@@ -58,7 +119,9 @@ def generate(rng, tier):
         names = rng.sample([0, 1, 2, 3], rng.range(0, 3))
         k = rng.range(2, 4)
         single = rng.below(k) if rng.chance(4) else -1  # rare: one input with a single prism (recorded finding)
-        cases.append({"cls": CLS, "inputs": [gen_input(rng, names, single=(j == single)) for j in range(k)]})
+        case = {"cls": CLS, "inputs": [gen_input(rng, names, single=(j == single)) for j in range(k)]}
+        maybe_repeat(rng, case, 4)
+        cases.append(case)
     return cases
 
 
@@ -108,6 +171,7 @@ def drive_one(case, work):
                         "values": np.array([np.nan if v is None else float(v) for v in d["vals"]]),
                         "association": "CELL" if d["cell"] else "VERTEX"}})
                 ins.append(ob)
+            ins = [ins[j] for j in order_of(case)]  # the list handed to the merger (an object may occur repeatedly)
             before = [_snap(o) for o in ins]
             in_uids = [o.uid for o in ins]
             n_objects = len(ws.objects)
@@ -189,7 +253,7 @@ ERR_CODE = {"ValueError": 0, "IndexError": 1}
 def case_term(case, obs):
     if not _expressible(case):
         return None
-    ins = clist(_dinp(s) for s in case["inputs"])
+    ins = clist(_dinp(s) for s in expand(case))
     if "out" not in obs:
         code = ERR_CODE.get(obs.get("error"))
         if code is None:
@@ -210,7 +274,7 @@ def case_term(case, obs):
 def model_term(case):
     if not _expressible(case):
         return None
-    return "drape_merge %s" % clist(_dinp(s) for s in case["inputs"])
+    return "drape_merge %s" % clist(_dinp(s) for s in expand(case))
 
 
 # ----------------------------------------------------------------------------- oracle (property text, independent of the model)
@@ -246,7 +310,7 @@ def _canon(sn):
 def oracle(case, obs):
     if "crash" in obs:
         return [{"key": "driver-crash", "what": obs["crash"][:300]}]
-    ins = case["inputs"]
+    ins = expand(case)
     fails = []
     if not all(_wellformed(s) for s in ins):
         return fails  # the property speaks about valid drape models only
@@ -320,6 +384,13 @@ def oracle(case, obs):
                 got = {(c["name"], c["cell"]): c["vals"] for c in out["children"]}
                 if len(got) != len(out["children"]) or got != exp:
                     fails.append({"key": "drape-data-not-concatenated", "what": f"merged data {got} differ from expected {exp}"})
+            else:
+                loffs, lp = [], 0
+                for s in ins:
+                    loffs.append(lp)
+                    lp += len(s["layers"]) + 2
+                fails += survival_fails(ins, out["children"], lambda t, cell: loffs[t], lambda t, cell: len(ins[t]["layers"]),
+                                        lambda cell: len(L))
             if obs.get("new_objects") != 1:
                 fails.append({"key": "drape-extra-objects", "what": f"the merge created {obs.get('new_objects')} objects"})
         if "out_reopened" in obs and _canon(obs["out_reopened"]) != _canon(obs["out"]):
@@ -335,16 +406,21 @@ def oracle(case, obs):
 
 
 def nontrivial(case, obs):
-    ins = case["inputs"]
+    ins = expand(case)
     names = {d["name"] for s in ins for d in s["data"]}
     missing = any(n not in {d["name"] for d in s["data"]} for s in ins for n in names)
     return "out" in obs and (missing or len(ins) >= 3)
 
 
 def histogram(cases, obs):
-    h = {"n_inputs": {}, "prisms_per_input": {}, "layers_per_prism": {}, "data_sets": {}, "single_prism_input": 0, "outcome": {}}
+    h = {"n_inputs": {}, "prisms_per_input": {}, "layers_per_prism": {}, "data_sets": {}, "single_prism_input": 0, "repeated_object": 0,
+         "dup_name_in_input": 0, "outcome": {}}
     for c, o in zip(cases, obs):
-        k = str(len(c["inputs"]))
+        if "order" in c:
+            h["repeated_object"] += 1
+        if any(len({d["name"] for d in s["data"]}) != len(s["data"]) for s in c["inputs"]):
+            h["dup_name_in_input"] += 1
+        k = str(len(order_of(c)))
         h["n_inputs"][k] = h["n_inputs"].get(k, 0) + 1
         for s in c["inputs"]:
             n = str(len(s["prisms"]))
